@@ -149,17 +149,20 @@ Fixpoint dw_eqb (a b : dworld) : bool :=
   | x :: a', y :: b' => zl_eqb x y && dw_eqb a' b'
   | _, _ => false
   end.
-(* replay a history next to the dense model: position of the first operation after
-   which the world is not what the dense model says (None = agreement); judging
-   stops at the first operation that is out of range or unsafe *)
+(* replay a history next to the dense model: position of the first in-range, safe
+   operation after which the world (or the value read) is not what the dense
+   model says (None = agreement); judging stops at the first out-of-range operation
+   (the invariant is not promised afterwards); after an in-range but unsafe operation
+   the dense side is resynchronised with the abstraction of the world *)
 Fixpoint dense_diverge (k : nat) (w : world) (d : dworld) (ops : list op) : option nat :=
   match ops with
   | [] => None
   | o :: r =>
-      if in_rangeb w o && safeb w o then
-        let '(w', (_, p)) := step w o in
+      let '(w', (_, p)) := step w o in
+      if negb (in_rangeb w o) then None else
+      if safeb w o then
         let d' := dstep d o in
         if dw_eqb (absw w') d' && match dout d o with Some q => zl_eqb p q | None => true end
         then dense_diverge (S k) w' d' r else Some k
-      else None
+      else dense_diverge (S k) w' (absw w') r
   end.
